@@ -18,7 +18,7 @@ ASSUMPTIONS = [
     "SDVRP: only non-splitting candidates (each customer visited once) are required to be reachable; the reachable optimum may be better than them",
     "SVRP: candidates use the technicians in their fixed order without skipping any (the mask lets a technician be skipped only when they can serve nobody - the documented pruning); like SDVRP the reachable optimum may therefore be better than the candidates'",
     "scheduling: optimum compared with the brute-force optimum over semi-active schedules (which contain an optimal schedule); FJSP/JSSP with waits enabled",
-    "MDCPDP is not enumerated (its candidate space needs vehicle-depot assignment enumeration; covered by C01/C03/C04 only)",
+    "MDCPDP: canonical form = set of (depot, route) over the non-empty tours; idle depot hops, the order in which vehicles leave and the (unused) depots visited only to end the episode are forgotten. Candidates: every customer order cut into <= D routes, each given to a distinct depot",
 ]
 REQUIRED_COUNTERS = ["c05_instances_fully_explored", "c05_candidates_checked", "c05_optimum_compared", "c05_boundary_instances", "c05_exact_fill_candidates"]
 MIN_NONTRIVIAL = {"quick": 150, "thorough": 2500}
@@ -58,6 +58,10 @@ def cases(tier, seed):
     for n in ((4, 6) if q else (4, 6)):
         add(dict(env="pdp", n=n, start_depot=False))
         add(dict(env="pdp", n=n, start_depot=True))
+    for n, modes in ((4, (("minmax", "close", "L2", 2), ("lateness", "open", "L1", 3), ("minsum", "close", "L2", 1), ("minsum", "open", "L2", 2), ("lateness", "close", "L2", 2))),
+                     (6, (("minmax", "close", "L2", 2), ("minsum", "open", "L1", 3), ("lateness", "close", "L2", 3), ("minmax", "open", "L2", 2)))):
+        for rm, pm, dm, dep in modes:
+            add(dict(env="mdcpdp", n=n, reward_mode=rm, problem_mode=pm, dist_mode=dm, depots=dep), ("gen",), max(1, reps // 2))
     # scheduling
     for (j, m, lo, hi) in ([(2, 2, 1, 2), (3, 2, 1, 2)] if q else [(2, 2, 1, 2), (3, 2, 1, 2), (2, 3, 2, 3), (3, 2, 2, 2)]):
         add(dict(env="fjsp", jobs=j, mas=m, min_ops=lo, max_ops=hi, mask_no_ops=False, n=j * hi, pmax=5))
@@ -80,7 +84,7 @@ def run_case(ctx, case):
 
 
 MANIFEST = {
-    "text": "Per small instance (routing <= 6 customers incl. exact-arithmetic boundary instances where loads fill the vehicle "
+    "text": "Per small instance (routing <= 6 customers, MDCPDP with 1-3 depots, incl. exact-arithmetic boundary instances where loads fill the vehicle "
             "and prizes reach the requirement exactly; FJSP/JSSP/FFSP <= 3 jobs x 2-3 machines; SMTWTP <= 7 jobs; FLP/MCP <= 8 "
             "items) ALL mask-admitted histories of the real env are expanded and the resulting solution set is compared "
             "with the brute-force feasible set and optimum from the independent oracle: nothing feasible-with-margin may "
